@@ -2,7 +2,7 @@
 import operator
 
 from lib import cstr, cz, clist, copt
-from pyval import val_coq, res_coq, Realiser, TargetGen, exc_outcome, Unrepresentable, ATTR_NAMES
+from pyval import val_coq, res_coq, Realiser, TargetGen, exc_outcome, Unrepresentable, ATTR_NAMES, fn_of
 
 ID = 'C02'
 PROPERTY_FILE = 'Properties/C02'
@@ -49,6 +49,15 @@ def corpus():
         # F29: the VALUE of a T argument is passed on as it is — the very list / dict of the target, not a rebuilt copy
         {'target': t, 'ops': [['__getitem__', L('g')], ['call', {'call': [{'t': [['__getitem__', L('a')]]}]}]]},
         {'target': t, 'ops': [['__getitem__', L('g')], ['call', {'call': [{'t': [['__getitem__', L('d')]]}]}], ['__getitem__', L('x')]]},
+        # keyword arguments of a recorded call: evaluated after the positional ones, in the order written
+        {'target': {'k': 'dict', 'od': False, 'id': 1, 'items': [['f', {'fn': ['rec']}], ['p', 1], ['q', 2]]},
+         'ops': [['__getitem__', L('f')], ['call', {'call': [{'t': [['__getitem__', L('p')]]}], 'kw': [['k', {'t': [['__getitem__', L('q')]]}]]}]]},
+        {'target': {'k': 'dict', 'od': False, 'id': 1, 'items': [['f', {'fn': ['rec']}]]},
+         'ops': [['__getitem__', L('f')], ['call', {'call': [{'t': [['__getitem__', L('p')]]}], 'kw': [['k', {'t': [['__getitem__', L(9)]]}]]}]]},
+        {'target': {'k': 'dict', 'od': False, 'id': 1, 'items': [['f', {'fn': ['rec']}], ['p', 1]]},
+         'ops': [['__getitem__', L('f')], ['call', {'call': [{'t': [['__getitem__', L('p')]]}], 'kw': [['k', {'t': [['__getitem__', L('q1')]]}], ['j', {'t': [['__getattr__', L('q2')]]}]]}]]},
+        {'target': {'k': 'dict', 'od': False, 'id': 1, 'items': [['f', {'fn': ['rec']}], ['l', {'k': 'list', 'id': 2, 'items': [1]}]]},
+         'ops': [['__getitem__', L('f')], ['call', {'call': [], 'kw': [['j', {'t': [['__getitem__', L('l')]]}], ['k', L({'k': 'list', 'id': 0, 'items': [5]})]]}], ['__getitem__', L(1)], ['__getitem__', L('j')]]},
         # what is an argument literal: exactly list / dict / tuple / set objects are rebuilt; an OrderedDict instance is passed as it is
         {'target': {'fn': ['id']}, 'ops': [['call', {'call': [L({'k': 'dict', 'od': True, 'id': 4001, 'items': [['q', 1]]})]}]]},
         {'target': {'fn': ['id']}, 'ops': [['call', {'call': [L({'k': 'dict', 'od': False, 'id': 0, 'items': [['q', {'k': 'dict', 'od': True, 'id': 4002, 'items': []}]]})]}]]},
@@ -76,7 +85,7 @@ class Gen:
             elif kind < 0.45:
                 v = r.choice(['', 'a', 'hello', 'xy'])
             elif kind < 0.6:
-                v = {'fn': r.choice([['inc'], ['dbl'], ['len'], ['const', 4], ['raise', 'ValueError'], ['raise', 'KeyError'], ['id'], ['addargs']])}
+                v = {'fn': r.choice([['inc'], ['dbl'], ['len'], ['const', 4], ['raise', 'ValueError'], ['raise', 'KeyError'], ['id'], ['addargs'], ['rec'], ['rec']])}
             elif kind < 0.8:
                 v = {'k': r.choice(['list', 'tuple']), 'id': tg.fresh(), 'items': [r.choice([0, 1, 2, 5, 'a', 'b']) for _ in range(r.randint(0, 4))]}
                 if v['k'] == 'tuple' and not v['items']:
@@ -188,6 +197,19 @@ class Gen:
                 if isinstance(k, (str, int, bool)) or k is None:
                     return ['__getitem__', {'lit': k}]
             return ['__getitem__', {'lit': 'zz'}]
+        if callable(cur) and cur is fn_of(['rec']):
+            # the recording callable takes anything: 0-2 positional and 0-2 keyword arguments, nested T expressions among them,
+            # some of which fail (Python's order decides which failure is seen: positional left to right, then keywords)
+            def one():
+                x = r.random()
+                if x < 0.45:
+                    return self.nested(tobj, (int, str, list, tuple, dict)) or {'lit': 3}
+                if x < 0.65:
+                    return {'t': [['__getitem__', {'lit': r.choice(['zz', 'yy', 99])}]]}
+                return {'lit': r.choice([1, 'ab', None, {'k': 'list', 'id': 0, 'items': [1, 2]}])}
+            args = [one() for _ in range(r.randint(0, 2))]
+            names = r.sample(['k', 'j', 'default'], r.randint(0, 2))
+            return ['call', {'call': args, 'kw': [[n_, one()] for n_ in names]}]
         if callable(cur) and not isinstance(cur, type):
             n = 1
             args = []
@@ -245,7 +267,8 @@ def arg_direct(arg, tobj, rl):
     if 'slice' in arg:
         return slice(*arg['slice'])
     if 'call' in arg:
-        return [arg_direct(a, tobj, rl) for a in arg['call']]
+        pos = [arg_direct(a, tobj, rl) for a in arg['call']]
+        return pos, [(k, arg_direct(a, tobj, rl)) for k, a in arg.get('kw', [])]
     raise ValueError(arg)
 
 
@@ -257,7 +280,7 @@ def apply_direct(cur, op, tobj, rl):
     if d == '__getitem__':
         return cur[a]
     if d == 'call':
-        return cur(*a)
+        return cur(*a[0], **dict(a[1]))
     if d in BIN:
         return BIN[d](cur, a)
     return UN[d](cur)
@@ -330,7 +353,7 @@ def build_t(ops, rl):
         elif d == '__getitem__':
             t = t[build_arg(arg, rl)]
         elif d == 'call':
-            t = t(*[build_arg(a, rl) for a in arg['call']])
+            t = t(*[build_arg(a, rl) for a in arg['call']], **{k: build_arg(a, rl) for k, a in arg.get('kw', [])})
         elif d in BIN:
             t = BIN[d](t, build_arg(arg, rl))
         else:
@@ -376,12 +399,16 @@ def direct_oracle(case, out):
         except Exception as e:
             if 'raise' not in out:
                 return 'python raised %s at op %d but glom returned a value' % (type(e).__name__, k)
-            if op[0] != 'call':
-                # argument evaluation failures (nested T) propagate as their own PathAccessError
-                try:
-                    arg_direct(op[1], tobj, r)
-                except Exception:
+            # argument evaluation failures (nested T) propagate as their own error: the FIRST failing argument in Python's
+            # order (positional left to right, then keywords) is the one seen
+            try:
+                arg_direct(op[1], tobj, r)
+            except Exception as e2:
+                n2 = type(e2).__name__
+                if (out['raise'] == 'PathAccessError' and out.get('inner') == n2) or out['raise'] == n2:
                     return None
+                return 'argument of op %d (%s) failed with %s in python; glom: %s' % (k, op[0], n2, out)
+            if op[0] != 'call':
                 if out['raise'] != 'PathAccessError' or out.get('part_idx') != k or out.get('inner') != type(e).__name__:
                     return 'op %d (%s) failed with %s in python; glom: %s' % (k, op[0], type(e).__name__, out)
             else:
@@ -422,7 +449,7 @@ def arg_coq(arg):
         a, b, c = arg['slice']
         return '(ASlice %s %s %s)' % (copt(a, cz), copt(b, cz), copt(c, cz))
     if 'call' in arg:
-        return '(ACall %s)' % clist(arg_coq(a) for a in arg['call'])
+        return '(ACall %s %s)' % (clist(arg_coq(a) for a in arg['call']), clist('(%s, %s)' % (cstr(k), arg_coq(a)) for k, a in arg.get('kw', [])))
     raise ValueError(arg)
 
 
